@@ -24,8 +24,8 @@ H only on hidden AVPs, attribute type number, reserved octets zero, per-kind pay
 
 fn parts(t: Tier) -> Vec<Part> {
     let (a, b, c) = match t {
-        Tier::Quick => (400_000, 100_000, 300_000),
-        Tier::Thorough => (8_000_000, 1_500_000, 5_000_000),
+        Tier::Quick => (1_200_000, 300_000, 900_000),
+        Tier::Thorough => (16_000_000, 3_000_000, 10_000_000),
     };
     vec![tape("avps", a, 1200), tape("control", b, 2500), tape("data", c, 300)]
 }
